@@ -179,8 +179,8 @@ fn judge_parse(real: &Real, base: &M, input: &str, out: &Outcome) -> (Verdict, b
     }
 }
 
-const TOKENS: [&str; 26] = [
-    "(", ")", "1", "-7", "+5", "2147483648", "1.5", "1e3", "inf", "NaN", "TRUE", "FALSE", "true", "foo", "INTEGER.+", "INT[1,2]", "INT[]", "INT[", "INT[x]", "INT[1,é", "BOOL[1,0]", "BOOL[2]", "BOOL[", "FLOAT[1.5,inf]", "FLOAT[", "é",
+const TOKENS: [&str; 27] = [
+    "(", ")", "1", "16777217", "-7", "+5", "2147483648", "1.5", "1e3", "inf", "NaN", "TRUE", "FALSE", "true", "foo", "INTEGER.+", "INT[1,2]", "INT[]", "INT[", "INT[x]", "INT[1,é", "BOOL[1,0]", "BOOL[2]", "BOOL[", "FLOAT[1.5,inf]", "FLOAT[", "é",
 ];
 const CHARS: [char; 11] = ['I', 'N', 'T', '[', ']', '(', ')', ',', '1', ' ', 'é'];
 
@@ -278,6 +278,9 @@ fn atoms_exact() -> Vec<Tree> {
         Tree::I(5),
         Tree::I(i32::MIN),
         Tree::I(i32::MAX),
+        // integers that single precision cannot hold: the parser tries i32 before f32 and must keep it that way
+        Tree::I(16_777_217),
+        Tree::I(-2_000_000_001),
         Tree::B(true),
         Tree::B(false),
         Tree::name("A"),
